@@ -345,6 +345,17 @@ class _Construct(Exception):
     pass
 
 
+def _rejected_set_locale(op):
+    """history: every other op tries to set a locale that does not exist (rejected with ValueError) after the valid one was set —
+    the default locale must be unaffected by the failed call"""
+    import zlib
+    if zlib.crc32(("bad" + repr(op)).encode()) & 1:
+        try:
+            _P["p"].set_locale(("xx", "klingon", "en_XX_nope", "zz-ZZ")[zlib.crc32(repr(op).encode()) % 4])
+        except ValueError:
+            pass
+
+
 def _operand_kind(op, how, b):
     """the reference value as the pendulum class itself, as its native counterpart, or (Date receiver) as a DateTime at midnight —
     chosen by a checksum of the op"""
@@ -385,6 +396,7 @@ def impl(op, backend):
         elif how == "def":
             x = _build(how, c, inv)
             p.set_locale(loc)
+            _rejected_set_locale(op)
             try:
                 if p.get_locale() != loc:
                     raise _Construct(f"get_locale() = {p.get_locale()!r} after set_locale({loc!r})")
@@ -419,6 +431,7 @@ def impl(op, backend):
             raise _Construct(f"microseconds {x.microseconds} for {op}")
         if how == "def":
             p.set_locale(loc)
+            _rejected_set_locale(op)
             try:
                 return "ok " + enc_str(x.in_words(separator=sep))
             finally:
